@@ -168,6 +168,8 @@ def rule_who(ctx, rep):
     pat.require(n >= 5, "only %d writes of q->head / q->tail found" % n)
 
 
+META["explanation"] += " " + 'Also (round 11): q->head / q->tail are written by cmpxchg everywhere in the unit (plain stores only in the initialisation).'
+
 RULES = [
     ("C12.who", rule_who),
     ("C12.enq", rule_enq),
